@@ -83,6 +83,10 @@ switches! {
     aug_compound_rhs,       // `x -= a + b`: compound right-hand side of a compound assignment
     setindex_self_ref,      // `xs[xs[0]] = v`: index expression reading the list being written
     field_list_neg_index,   // reading `obj.field[-1]`: negative index on a list reached through a field
+    dict_var_key,           // `d[k]` with a str variable key
+    dict_inline_literal,    // dict literal in expression position (not the initializer of an annotated binding)
+    list_builtins,          // sum/min/max/sorted over List[int]
+    recursion,
 }
 
 impl Default for Switches {
@@ -310,6 +314,19 @@ pub enum Expr {
     TupleIdx(Box<Expr>, usize),
     /// lvalue-style access path: root variable followed by field / index steps
     Path(u32, Vec<Step>),
+    /// sum / min / max of a List[int]
+    ListFn(ListFn, Box<Expr>),
+    /// sorted(List[int])
+    Sorted(Box<Expr>),
+    /// recursive call of the function being defined: (fn index, args)
+    SelfCall(usize, Vec<Expr>),
+}
+
+#[derive(Clone, Copy, Debug, PartialEq, Eq, Hash)]
+pub enum ListFn {
+    Sum,
+    Min,
+    Max,
 }
 
 #[derive(Clone, Debug, PartialEq)]
@@ -635,6 +652,17 @@ impl<'a> Renderer<'a> {
             Expr::TupleLit(xs) => format!("({})", xs.iter().map(|a| self.expr(a)).collect::<Vec<_>>().join(", ")),
             Expr::TupleIdx(t, i) => format!("{}.{}", self.expr(t), i),
             Expr::Path(root, steps) => self.path(*root, steps),
+            Expr::ListFn(f, x) => format!(
+                "{}({})",
+                match f {
+                    ListFn::Sum => "sum",
+                    ListFn::Min => "min",
+                    ListFn::Max => "max",
+                },
+                self.expr(x)
+            ),
+            Expr::Sorted(x) => format!("sorted({})", self.expr(x)),
+            Expr::SelfCall(f, args) => format!("{}({})", n.get(&NameKey::Fn(*f)), args.iter().map(|a| self.expr(a)).collect::<Vec<_>>().join(", ")),
         }
     }
 
@@ -1892,6 +1920,47 @@ impl<'a> Interp<'a> {
                 Val::Tuple(xs) => Ok(xs[*i].clone()),
                 _ => Err(Stop::Discard(Discard::Internal("tuple idx".into()))),
             },
+            Expr::ListFn(f, x) => match self.eval(x, fr)? {
+                Val::List(xs) => {
+                    let mut ints = Vec::new();
+                    for v in xs {
+                        match v {
+                            Val::Int(i) => ints.push(i),
+                            _ => return Err(Stop::Discard(Discard::Internal("listfn elem".into()))),
+                        }
+                    }
+                    match f {
+                        ListFn::Sum => {
+                            let mut t: i64 = 0;
+                            for i in ints {
+                                t = ovf(t.checked_add(i))?;
+                            }
+                            Ok(Val::Int(t))
+                        }
+                        // min/max of an empty list is not documented: out of domain
+                        ListFn::Min => ints.into_iter().min().map(Val::Int).ok_or(Stop::Discard(Discard::Internal("min of empty".into()))),
+                        ListFn::Max => ints.into_iter().max().map(Val::Int).ok_or(Stop::Discard(Discard::Internal("max of empty".into()))),
+                    }
+                }
+                _ => Err(Stop::Discard(Discard::Internal("listfn".into()))),
+            },
+            Expr::Sorted(x) => match self.eval(x, fr)? {
+                Val::List(mut xs) => {
+                    xs.sort_by(|a, b| match (a, b) {
+                        (Val::Int(a), Val::Int(b)) => a.cmp(b),
+                        _ => std::cmp::Ordering::Equal,
+                    });
+                    Ok(Val::List(xs))
+                }
+                _ => Err(Stop::Discard(Discard::Internal("sorted".into()))),
+            },
+            Expr::SelfCall(f, args) => {
+                let mut argv = Vec::new();
+                for a in args {
+                    argv.push(self.eval(a, fr)?);
+                }
+                self.call_fn(*f, argv)
+            }
             Expr::Path(root, steps) => {
                 let mut cur = self.lookup(fr, *root).cloned().ok_or(Stop::Discard(Discard::Internal("path root".into())))?;
                 for st in steps {
